@@ -55,7 +55,9 @@ def seq_expr(kind, items):
     return bytes_lit(bytes(items))
 
 
-CHARS = ["a", "b", "가", "😀", ",", " ", "é", "𝄞", "z"]
+# code points, not graphemes: composable sequences (e + U+0301, conjoining jamo ᄀ ᅡ ᆨ) and singletons whose NFC differs
+# (U+212B, U+F900) must stay exactly as written
+CHARS = ["a", "b", "가", "😀", ",", " ", "é", "𝄞", "z", "e", "\u0301", "\u1100", "\u1161", "\u11a8", "\u212b", "\uf900"]
 
 
 def rand_seq(rng, kind, maxlen):
@@ -134,7 +136,7 @@ def cases(rng, tier):
         else:
             # split / join with any non-empty separator restores the original
             if kind == 'str':
-                sep = rng.choice([",", "a", "aa", " ", "가", "😀", ", ", "ab"])
+                sep = rng.choice([",", "a", "aa", " ", "가", "😀", ", ", "ab", "\u0301", "\u1161", "e", "é", "\u1100\u1161"])
                 s = "".join(items) + (sep if rng.random() < 0.3 else "") + "".join(rand_seq(rng, 'str', 4))
                 se2, sepx = str_lit(s), str_lit(sep)
                 pieces = s.split(sep)
@@ -153,7 +155,7 @@ SPEC = {
     'lean': ['C12'],
     'cases': cases,
     'stream': 'C12 sequence stream',
-    'rule': 'slicing: all (start, end, step) ∈ [−5, 5]² × {±1, ±2, ±3} (sampled in quick; [−8, 8]² in thorough) on lists / '
+    'rule': 'strings over an alphabet with astral, precomposed, combining and conjoining code points and NFC-unstable singletons; slicing: all (start, end, step) ∈ [−5, 5]² × {±1, ±2, ±3} (sampled in quick; [−8, 8]² in thorough) on lists / '
             'strings / byte strings of length 0…4 (0…6), random triples in [−45, 45] on lengths ≤ 40, 1- and 2-argument '
             'forms, zero step; expected by an index-walking oracle. Indexing at −len−3…len+2; length in code points (astral '
             'characters); concatenation; map / filter order; left / right folds with and without initial value using a '
